@@ -11,6 +11,7 @@ PROP = dict(
          'non-trivial: non-square image with >= 2 rows and columns and pairwise distinct pixels; trace with >= 2 recording threads, or a thread '
          'crossing the 8192-event chunk boundary, or nesting depth >= 2; distinct by SHA-1 of the case',
     floor=dict(quick=150, thorough=1500),
+    confirm_replays=10,  # the concurrent-writers cases are timing dependent
     assumptions=TRUST + ['Hypothesis 6.168 / CPython json module as the independent decoders',
                          'event names are string literals at stable addresses (the recorder caches by pointer, documented)'],
     bins=[dict(name='C20_shim', src='harness/C20_shim.cpp', cfg='tbb-asan', kind='aux'),
